@@ -18,7 +18,7 @@ EXPLANATION = (
     "sonar drivers return (period / 147 us) converted from inches resp. (voltage / 4.9 mV) converted from centimetres to the "
     "constructor's unit, for every output unit; C18.O4 the pressure reading equals 250*max(v,eps)/V - 25 with V the calibrated "
     "value if present else the supply voltage, no path of the property raises (the division sits in a ZeroDivisionError handler), "
-    "and after one or two calibrate() calls the reading at the calibration voltage is exactly the last calibration pressure."
+    "and after one or two calibrate() calls the reading at the calibration voltage is exactly the last calibration pressure.  The same identities are decided on a chain of user-defined units with offsets (x*k + d), whose conversions do not commute, so the order in which convert() walks to the root and back is decided too."
 )
 RULE = "one obligation per table unit / ordered pair / chain identity / sensor formula; values symbolic, constants exact"
 EXHAUSTIVE = True
